@@ -398,7 +398,8 @@ class DoctestParser:
         # Need to ensure that old-style continuations with want statements are
         # placed in their own group, so they can be executed as "single".
         for left, mid, right in _iterthree(labeled_lines, pad_value=(None, None)):
-            if left[0] != mid[0] or (mid[0] == 'dsrc' and right[0] == 'dcnt'):
+            if left[0] != mid[0] or (mid[0] == 'dsrc' and right[0] == 'dcnt' and
+                                     mid[1].lstrip().startswith('>>>')):
                 if not (left[0] == 'dsrc' and mid[0] == 'dcnt'):
                     # Start a new group
                     if state is not None:
